@@ -488,3 +488,38 @@ Theorem C18_labelled_iff_encoded_informational_partial :
    exists ws, r_segs out = [SG ws] /\ all_plain (r_segs (run_plain_i s)) = Some (concat ws)).
 Proof. exact labelled_iff_encoded_i. Qed.
 Print Assumptions C18_labelled_iff_encoded_informational_partial.
+
+(* ---- 10. sibling selection as a function of the Accept-Encoding list: completeness ----
+   with C18_static_sibling_choice_sound (the one served is the FIRST eligible of the priority
+   table) and C18_sibling_only_if_offered (only a coding the request offers with q > 0): for all
+   offers and all sibling sets, whenever some coding of the table is listed plainly and its
+   sibling is on disk, a sibling is served (not the identity file) *)
+Theorem C18_sibling_served_when_offered :
+  forall prio ae avail n e,
+  In (n, e) prio -> accepted ae n = true -> avail e = true ->
+  exists n' e', select_sibling prio ae avail = Some (n', e') /\
+    accepted ae n' = true /\ avail e' = true /\
+    exists l1 l2, prio = l1 ++ (n', e') :: l2 /\
+      forall n0 e0, In (n0, e0) l1 -> accepted ae n0 = false \/ avail e0 = false.
+Proof.
+  intros prio ae avail n e Hin Ha Hv.
+  destruct (sibling_served_when_offered prio ae avail n e Hin Ha Hv) as (n' & e' & E).
+  exists n', e'. split; [exact E|]. exact (select_sibling_sound _ _ _ _ _ E).
+Qed.
+Print Assumptions C18_sibling_served_when_offered.
+
+Example C18_sibling_served_when_offered_nonvacuous :
+  In (bs "gzip", bs ".gz") gen_c18_static_priority /\ accepted (bs "br;q=0, gzip") (bs "gzip") = true /\
+  (* every subset of {zstd, br, gzip} offered x every subset of siblings: served = first of the
+     table that is both offered and on disk, none iff there is no such coding *)
+  forallb (fun sib => forallb (fun off =>
+      let ae := (if N.testbit off 0 then bs "gzip, " else []) ++ (if N.testbit off 2 then bs "zstd," else []) ++
+                (if N.testbit off 1 then bs " br" else bs "identity") in
+      let avail e := (beq e (bs ".zst") && N.testbit sib 2) || (beq e (bs ".br") && N.testbit sib 1) ||
+                     (beq e (bs ".gz") && N.testbit sib 0) in
+      let both := N.land sib off in
+      match select_sibling gen_c18_static_priority ae avail with
+      | Some (n, _) => if N.testbit both 2 then beq n (bs "zstd") else if N.testbit both 1 then beq n (bs "br") else N.testbit both 0 && beq n (bs "gzip")
+      | None => both =? 0
+      end) [0; 1; 2; 3; 4; 5; 6; 7]) [0; 1; 2; 3; 4; 5; 6; 7] = true.
+Proof. split; [vm_compute; tauto|]. split; vm_compute; reflexivity. Qed.
